@@ -211,7 +211,16 @@ fn sample_lines(all: &[String], rng: &mut Rng, n: usize) -> Vec<String> {
 }
 
 pub fn build(rules: &[String], debug: bool, opt: bool) -> Engine {
-    Engine::from_rules_parametrised(rules, ParseOptions::default(), debug, opt)
+    let js: Vec<&String> = rules.iter().filter(|r| r.contains("+js(")).collect();
+    if js.is_empty() {
+        return Engine::from_rules_parametrised(rules, ParseOptions::default(), debug, opt);
+    }
+    // overlapping lists: a second, trusted list repeats the scriptlet rules of the first (the same rule text under
+    // two permission masks is two entries of the per-host table, before and after a reload)
+    let mut fs = adblock::lists::FilterSet::new(debug);
+    fs.add_filters(rules, ParseOptions::default());
+    fs.add_filters(js, ParseOptions { permissions: adblock::resources::PermissionMask::from_bits(1), ..ParseOptions::default() });
+    Engine::from_filter_set(fs, opt)
 }
 
 /// child-process entry: serialize the list in the file and print the digest
